@@ -222,7 +222,14 @@ def coq_obligations(pid, allowed_axioms=()):
     os.makedirs(WORK, exist_ok=True)
     with open(os.path.join(WORK, ".coqlock"), "w") as lock:
         fcntl.flock(lock, fcntl.LOCK_EX)
-        rc, out, _ = _run(["timeout", "3000", "make", "-j8", target], cwd=COQDIR,
+        # the property's theorem file and every executable model (the generated case files import models that the
+        # theorem file does not depend on, e.g. Model/C04x, Model/C07: they must never be stale)
+        import glob
+        models = sorted("theories/Model/" + os.path.basename(f)[:-2] + ".vo"
+                        for f in glob.glob(os.path.join(COQDIR, "theories", "Model", "*.v")))
+        listed = set(l.strip() for l in open(os.path.join(COQDIR, "_CoqProject")) if l.strip().endswith(".v"))
+        models = [m for m in models if m[:-1] in listed]
+        rc, out, _ = _run(["timeout", "3000", "make", "-j8", target] + models, cwd=COQDIR,
                           timeout=3100, env=coq_env())
         fcntl.flock(lock, fcntl.LOCK_UN)
     src = os.path.join(COQDIR, "theories", "Props", pid + ".v")
